@@ -447,8 +447,17 @@ def explore(ctx, cases):
     terms = []
     try:
         fresh = drv.fresh_view(FRESH_CFG)
-        for cfg, hist in cases:
+        import collections
+        queue = collections.deque(cases)
+        while queue:
+            item = queue.popleft()
+            cfg, hist = item[0], item[1]
             obs, final, views = drv.run_case(cfg, hist)
+            if len(item) > 2 and len(hist) < item[2] and len(obs) == len(hist) and all(o[0] == 'Initiated' for o in obs):
+                # exhaustive family: a history goes on only while restarts are initiated (after a refusal the
+                # component has its final state and further exits are not handled), so only these are extended
+                for ev in item[3]:
+                    queue.append((cfg, hist + [ev], item[2], item[3]))
             nontriv = sum(1 for o in obs if o[0] == 'Initiated') >= 1
             ctx.case([cfg, hist], nontriv)
             ctx.count('hist_len_%d' % min(len(hist), 13))
@@ -570,7 +579,8 @@ def dlmeso_cases(ctx):
 
 def run(ctx):
     rng = ctx.rng
-    ctx.rule = ('exhaustive: every history of length <= L over 8 exit reasons x {hook says possible, not required, raises} '
+    ctx.rule = ('exhaustive: every history of length <= L (quick 3, thorough 4; a history is extended only while restarts are '
+                'initiated - after a refusal no further exit is handled) over 8 exit reasons x {hook says possible, not required, raises} '
                 'for a grid of configurations; plus random configurations x random histories (length <= 12, all 11 hook '
                 'behaviours, stability and run() oracles); plus the real DLMESORestart on generated CONTROL files and the chain '
                 'with the fallback hook in a directory holding such a file; non-trivial = at least one restart initiated '
@@ -583,7 +593,7 @@ def run(ctx):
     rep = dict(sf, hook_on=['KnownIssue'], is_rep=True, max_restarts=None)
     cases.append((rep, [('ResourceExhausted', 'HJunk', False, True), ('ResourceExhausted', 'HJunk', False, True)]))
     # exhaustive small scope
-    L = 2 if ctx.tier == 'quick' else 3
+    L = 3 if ctx.tier == 'quick' else 4
     grid = []
     for mr in (['absent', 0, 1, -1] if ctx.tier == 'quick' else ['absent', None, -1, 0, 1, 2]):
         for hf, ld in (('HFNone', False), ('HFNone', True), ('HFNamed', True), ('HFEmpty', True)):
@@ -592,12 +602,11 @@ def run(ctx):
                              'sim_restart': False, 'is_rep': False, 'shutdown_on': ['KnownIssue']})
     evs = [(r, hk, True, True) for r in REASONS for hk in ('HPossible', 'HNotRequired', 'HRaiseOther')]
     for cfg in grid:
-        for n in range(1, L + 1):
-            for h in itertools.product(evs, repeat=n):
-                # prune: a history continues only while restarts are initiated; keep all, the driver stops at refusal
-                cases.append((cfg, list(h)))
+        for ev in evs:
+            # a history continues only while restarts are initiated: explore() extends exactly those, up to length L
+            cases.append((cfg, [ev], L, evs))
     ctx.exhaustive = False
-    ctx.count('exhaustive_small_scope_cases', len(cases))
+    ctx.count('exhaustive_small_scope_roots', len(cases))
     nrand = 1500 if ctx.tier == 'quick' else 20000
     for _ in range(nrand):
         cfg = gen_cfg(rng)
